@@ -675,7 +675,7 @@ Fixpoint observe_all (st : store) (hs : list hcall) : list (N * list N * list N)
   end.
 
 Definition N_list_eqb (a b : list N) : bool :=
-  Nat.eqb (length a) (length b) && forallb (fun p => N.eqb (fst p) (snd p)) (combine a b).
+  Nat.eqb (List.length a) (List.length b) && forallb (fun p => N.eqb (fst p) (snd p)) (combine a b).
 Definition obs_eqb (a b : N * list N * list N) : bool :=
   N.eqb (fst (fst a)) (fst (fst b)) && N_list_eqb (snd (fst a)) (snd (fst b))
   && N_list_eqb (snd a) (snd b).
